@@ -97,6 +97,8 @@ pub enum Shape {
     OptNz(Ty),
     /// U128sFromFelt252Result
     Words,
+    /// (T, bool)
+    IntBool(Ty),
 }
 
 #[derive(Clone, Debug)]
@@ -122,6 +124,9 @@ pub struct Case {
     pub g: Option<(String, String, Vec<BigInt>)>,
     /// extra item definitions needed by the case (structs, enums, impls), keyed by name
     pub items: Vec<(String, String)>,
+    /// extra shared functions (name, definition, run-time argument cells), each run with const
+    /// folding on and off ("f0/..", "f1/..")
+    pub fns: Vec<(String, String, Vec<BigInt>)>,
     /// the items need `#[feature(..)]` attributes for corelib internals
     pub feature: bool,
     /// tag used for known-finding fingerprints
@@ -152,6 +157,9 @@ impl Case {
         }
         if let Some((params, body, args)) = &self.g {
             o.push_str(&format!("{f}fn g({params}) -> {} {{ {body} }}  // run with {:?}\n", self.rty, args));
+        }
+        for (_, def, args) in &self.fns {
+            o.push_str(&format!("{f}{def}  // run with {:?}\n", args));
         }
         o
     }
@@ -364,6 +372,7 @@ fn ops_case(op: Op, t: Ty, x: &BigInt, y: &BigInt) -> Case {
         args,
         g: Some((String::new(), op.expr(&la, &lb), vec![])),
         items: vec![],
+        fns: vec![],
         feature: false,
         tag: format!(
             "{}:{}:{}",
@@ -405,6 +414,7 @@ fn bool_case(op: &'static str, coq: &'static str, a: bool, b: bool) -> Case {
         args,
         g: Some((String::new(), e(&la, &lb), vec![])),
         items: vec![],
+        fns: vec![],
         feature: false,
         tag: format!("bool:{name}"),
         class: "bool",
@@ -471,6 +481,7 @@ fn cast_case(kind: CastKind, from: Ty, to: Ty, x: &BigInt, coq: bool) -> Case {
         args: from.cells(x),
         g: Some((String::new(), e(&la), vec![])),
         items: vec![],
+        fns: vec![],
         feature: kind == CastKind::Downcast,
         tag: format!("cast:{kname}:{}:{}", if from.is_felt() { "felt" } else { "int" }, if to.signed() { "signed" } else { "unsigned" }),
         class: match kind {
@@ -690,6 +701,7 @@ fn lf_case(lf: Lf, kx: bool, ky: bool, x: &BigInt, y: &BigInt) -> Case {
         args: vec![],
         g: Some((params.join(", "), body, args)),
         items: vec![],
+        fns: vec![],
         feature: true,
         tag: format!("lf:{:?}:{}{}", lf, if kx { 'L' } else { 'X' }, if ky { 'L' } else { 'X' }).replace(['(', ')'], "_"),
         class: match (kx, ky) {
@@ -798,6 +810,7 @@ fn expr_case(tpl: usize, t: Ty, x: &BigInt, y: &BigInt) -> Option<Case> {
         args: t.cells(x).into_iter().chain(t.cells(y)).collect(),
         g: Some((String::new(), e(&la, &lb), vec![])),
         items,
+        fns: vec![],
         feature: false,
         tag: format!("expr:{name}"),
         class: "expr",
@@ -813,6 +826,161 @@ fn gen_expr(rng: &mut Rng, thorough: bool, out: &mut Vec<Case>) {
                 let y = if i % 3 == 0 { random_operand(rng, t) } else { rng.pick(&bs).clone() };
                 if let Some(c) = expr_case(tpl, t, &x, &y) {
                     out.push(c);
+                }
+            }
+        }
+    }
+}
+
+
+// ---------------------------------------------------------------------------------------------
+// leg part: partial-constant rewrites.  One operand is a literal in the body, the other arrives
+// at run time:  f_lit(x) = op(x, LIT)   vs   f_args(x, y) = op(x, y) called with y = LIT.
+// The folder specialises such calls (x +- 0, x +- 1 -> core::internal::num::*_inc/_dec, 0 + x,
+// x * 0/1, x / 1, 0 / x, x == 0 -> is_zero, wide_mul by 0, div_rem of 0, downcast subsumption, and
+// -- through try_specialize_call -- any corelib function with a constant argument).
+// ---------------------------------------------------------------------------------------------
+#[derive(Clone, Copy, PartialEq, Eq, Debug)]
+pub enum Arith {
+    Add,
+    Sub,
+    Mul,
+}
+#[derive(Clone, Copy, PartialEq, Eq, Debug)]
+pub enum Variant {
+    Wrapping,
+    Overflowing,
+    Checked,
+    Saturating,
+}
+#[derive(Clone, Copy, PartialEq, Eq, Debug)]
+pub enum POp {
+    Bin(Op),
+    Var(Variant, Arith),
+}
+impl POp {
+    fn name(self) -> String {
+        match self {
+            POp::Bin(o) => o.name().to_string(),
+            POp::Var(v, a) => format!("{:?}_{:?}", v, a).to_lowercase(),
+        }
+    }
+    fn coq(self) -> String {
+        match self {
+            POp::Bin(o) => format!("PBin {}", o.coq()),
+            POp::Var(v, a) => format!("PVar P{:?} A{:?}", v, a),
+        }
+    }
+    fn supported(self, t: Ty) -> bool {
+        match self {
+            POp::Bin(o) => o != Op::Neg && o != Op::DivRem && o.supported(t),
+            POp::Var(_, a) => !t.is_felt() && (a != Arith::Mul || !t.signed()),
+        }
+    }
+    fn expr(self, a: &str, b: &str) -> String {
+        match self {
+            POp::Bin(o) => o.expr(a, b),
+            POp::Var(v, ar) => {
+                let m = format!("{:?}_{:?}", v, ar).to_lowercase();
+                format!("{a}.{m}({b})")
+            }
+        }
+    }
+    fn result(self, t: Ty) -> (String, Shape) {
+        match self {
+            POp::Bin(o) => o.result(t),
+            POp::Var(Variant::Wrapping, _) | POp::Var(Variant::Saturating, _) => (t.name().into(), Shape::Int(t)),
+            POp::Var(Variant::Overflowing, _) => (format!("({}, bool)", t.name()), Shape::IntBool(t)),
+            POp::Var(Variant::Checked, _) => (format!("Option<{}>", t.name()), Shape::Opt(t)),
+        }
+    }
+}
+fn part_case(op: POp, t: Ty, lit_left: bool, lit: &BigInt, lname: &str, x: &BigInt) -> Case {
+    let (rty, shape) = op.result(t);
+    let tn = t.name();
+    let l = t.lit(lit);
+    let side = if lit_left { "l" } else { "r" };
+    let (body_lit, run_args) = if lit_left {
+        (op.expr(&l, "x"), [t.cells(lit), t.cells(x)].concat())
+    } else {
+        (op.expr("x", &l), [t.cells(x), t.cells(lit)].concat())
+    };
+    let f_lit = format!("p_{}_{tn}_{side}_{lname}", op.name());
+    let f_args = format!("q_{}_{tn}", op.name());
+    Case {
+        leg: "part",
+        coq: true,
+        coq_head: format!("{}, {}, {}, {}, {}", op.coq(), t.coq(), lit_left, coq_z(lit), coq_z(x)),
+        nontrivial: true,
+        rty: rty.clone(),
+        shape,
+        const_expr: None,
+        constfn: None,
+        twin: None,
+        args: vec![],
+        g: None,
+        items: vec![],
+        fns: vec![
+            (f_lit.clone(), format!("fn {f_lit}(x: {tn}) -> {rty} {{ {body_lit} }}"), t.cells(x)),
+            (f_args.clone(), format!("fn {f_args}(x: {tn}, y: {tn}) -> {rty} {{ {} }}", op.expr("x", "y")), run_args),
+        ],
+        feature: false,
+        tag: format!("part:{}:{}:{side}:{lname}", op.name(), if t.signed() { "signed" } else if t.is_felt() { "felt" } else { "unsigned" }),
+        class: "part",
+    }
+}
+
+fn gen_part(rng: &mut Rng, thorough: bool, out: &mut Vec<Case>) {
+    let mut ops: Vec<POp> = vec![];
+    for o in [Op::Add, Op::Sub, Op::Mul, Op::Div, Op::Rem, Op::And, Op::Or, Op::Xor, Op::Eq, Op::Ne, Op::Lt, Op::Le, Op::Gt, Op::Ge] {
+        ops.push(POp::Bin(o));
+    }
+    for v in [Variant::Wrapping, Variant::Overflowing, Variant::Checked, Variant::Saturating] {
+        for a in [Arith::Add, Arith::Sub, Arith::Mul] {
+            ops.push(POp::Var(v, a));
+        }
+    }
+    for t in ALL_TYS {
+        let (lo, hi) = (t.min(), t.max());
+        // literal operands: {0, 1, -1, 2, MIN, MAX, MIN+1, MAX-1}
+        let mut lits: Vec<(BigInt, &'static str)> = vec![
+            (BigInt::zero(), "zero"), (BigInt::one(), "one"), (BigInt::from(2), "two"), (hi.clone(), "max"),
+            (&hi - 1, "maxm1"),
+        ];
+        if t.signed() || t.is_felt() {
+            lits.extend([(BigInt::from(-1), "m1"), (lo.clone(), "min"), (&lo + 1, "minp1")]);
+        }
+        // run-time operands: the corners every rewrite is sensitive to, plus seeded ones
+        let mut xs: Vec<BigInt> = vec![lo.clone(), hi.clone(), BigInt::zero(), BigInt::one(), &hi - 1, &lo + 1];
+        if t.signed() || t.is_felt() {
+            xs.push(BigInt::from(-1));
+        }
+        let bs = boundary(t);
+        for op in &ops {
+            if !op.supported(t) {
+                continue;
+            }
+            for (lit, lname) in &lits {
+                // quick tier: the three "near" literals are sampled
+                if !thorough && matches!(*lname, "two" | "maxm1" | "minp1") && rng.below(3) != 0 {
+                    continue;
+                }
+                for lit_left in [false, true] {
+                    let mut my_xs = xs.clone();
+                    if !thorough {
+                        // corners MIN, MAX, 0 always; two of the others
+                        while my_xs.len() > 5 {
+                            let i = 3 + rng.below(my_xs.len() as u64 - 3) as usize;
+                            my_xs.remove(i);
+                        }
+                    }
+                    let extra = if thorough { 4 } else { 1 };
+                    for i in 0..extra {
+                        my_xs.push(if i % 2 == 0 { random_operand(rng, t) } else { rng.pick(&bs).clone() });
+                    }
+                    for x in my_xs {
+                        out.push(part_case(*op, t, lit_left, lit, lname, &x));
+                    }
                 }
             }
         }
@@ -933,6 +1101,7 @@ pub fn generate(rng: &mut Rng, thorough: bool) -> (Vec<Case>, BTreeMap<String, u
     gen_casts(rng, thorough, &mut extra);
     gen_lf(rng, thorough, &mut extra);
     gen_expr(rng, thorough, &mut extra);
+    gen_part(rng, thorough, &mut extra);
     for c in extra {
         push(c, &mut cases);
     }
